@@ -14,8 +14,26 @@ CQ_MOUNTS = [
 ]
 
 
-def H(mod, name, tier="quick", bounds="", **kw):
+FETCH = r"CQueue::<.*>::fetch_next"
+
+
+def DISPATCH(k):
+    """bound for the `while !self.dispatch_event() {}` loop of Runtime::dispatch_all"""
+    return (r"Runtime::<.*>::dispatch_all", None, k)
+
+
+def FINISH(k):
+    """bound for the drain loop of Runtime::finish"""
+    return (r"Runtime::<.*>::finish", None, k)
+
+
+def H(mod, name, tier="quick", bounds="", fetch=None, **kw):
+    """fetch = unwind bound for the two scan loops of CQueue::fetch_next (windows visited + 1)"""
     d = dict(name=name, fqn=mod + "::" + name, tier=tier, bounds=bounds)
+    if fetch:
+        extra = kw.pop("unwindset", [])
+        d["unwindset"] = [(FETCH, None, fetch)] + extra
+        d["bounds"] += "; fetch_next scan loops unwound %d%s, other loops 5" % (fetch, "".join(", %s loop %d" % (e[0].split("::")[-1], e[2]) for e in extra))
     d.update(kw)
     return d
 
@@ -55,18 +73,21 @@ PROPS["C01"] = dict(
     outside=["more than 3 live events", "timestamps beyond the per-harness T (far-future outliers: scan is linear in T/t)", "usize id wrap", "Duration overflow near MAX", "BinaryHeap back end"],
     harnesses=[
         H(M01, "c01_new_fields", bounds="n in 1..=3, t in 1..=3 ns symbolic; real CQueue::new vs overlay constructor"),
-        H(M01, "c01_order2_n1t1", bounds="n=1,t=1ns; add(a),add(b),drain; a,b<=3 symbolic"),
-        H(M01, "c01_order2_n2t2", bounds="n=2,t=2ns; add(a),add(b),drain; a,b<=5 symbolic (two 'years')"),
-        H(M01, "c01_order2_n3t1", bounds="n=3,t=1ns; add,add,drain; times<=4", tier="thorough"),
-        H(M01, "c01_order3_n1t2", bounds="n=1,t=2ns; add,add,fetch,add,drain; times<=5"),
-        H(M01, "c01_order3_n2t1", bounds="n=2,t=1ns; add,add,fetch,add,drain; times<=4"),
-        H(M01, "c01_order3_n2t2", bounds="n=2,t=2ns; add,add,fetch,add,drain; times<=5", tier="thorough"),
-        H(M01, "c01_cancel2_n1t1", bounds="n=1,t=1ns; add,add,[fetch],cancel(sym),drain; times<=3"),
-        H(M01, "c01_cancel2_n2t2", bounds="n=2,t=2ns; add,add,[fetch],cancel(sym),drain; times<=5"),
-        H(M01, "c01_cancel2_n2t1", bounds="n=2,t=1ns; add,add,[fetch],cancel(sym),drain; times<=4"),
-        H(M01, "c01_script4_n1t2", bounds="n=1,t=2ns; 4 symbolic ops over {add,fetch,cancel(i)} then drain; times<=5"),
-        H(M01, "c01_script4_n2t1", bounds="n=2,t=1ns; 4 symbolic ops then drain; times<=4", tier="thorough"),
-        H(M01, "c01_script5_n2t2", bounds="n=2,t=2ns; 5 symbolic ops then drain; times<=5", tier="thorough"),
+        H(M01, "c01_order2_n1t1", fetch=4, bounds="n=1,t=1ns; add(a),add(b),drain; a,b<=3 symbolic"),
+        H(M01, "c01_order2_n2t2", fetch=4, bounds="n=2,t=2ns; add(a),add(b),drain; a,b<=5 symbolic (two 'years')"),
+        H(M01, "c01_order2_n3t1", fetch=5, bounds="n=3,t=1ns; add,add,drain; times<=4", tier="thorough"),
+        H(M01, "c01_order3_n1t2", fetch=4, bounds="n=1,t=2ns; add,add,fetch,add,drain; times<=5"),
+        H(M01, "c01_order3_n2t1", fetch=5, bounds="n=2,t=1ns; add,add,fetch,add,drain; times<=4", tier="thorough", mem=20),
+        H(M01, "c01_order3_n2t2", fetch=4, bounds="n=2,t=2ns; add,add,fetch,add,drain; times<=5", tier="thorough"),
+        H(M01, "c01_cancel1_n2t2", fetch=4, bounds="n=2,t=2ns; add(a),cancel,add(b),drain; times<=5 (bucket boundary a==t inside)"),
+        H(M01, "c01_cancel1_n2t1", fetch=5, bounds="n=2,t=1ns; add(a),cancel,add(b),drain; times<=4"),
+        H(M01, "c01_cancel1_n3t1", fetch=5, mem=14, bounds="n=3,t=1ns; add(a),cancel,add(b),drain; times<=4"),
+        H(M01, "c01_cancel2_n1t1", fetch=4, bounds="n=1,t=1ns; add,add,[fetch],cancel(sym),drain; times<=3"),
+        H(M01, "c01_cancel2_n2t2", fetch=4, bounds="n=2,t=2ns; add,add,[fetch],cancel(sym),drain; times<=5", tier="thorough", mem=20),
+        H(M01, "c01_cancel2_n2t1", fetch=5, bounds="n=2,t=1ns; add,add,[fetch],cancel(sym),drain; times<=4", tier="thorough", mem=20),
+        H(M01, "c01_script4_n1t2", fetch=4, bounds="n=1,t=2ns; 4 symbolic ops over {add,fetch,cancel(i)} then drain; times<=5", tier="thorough", mem=24),
+        H(M01, "c01_script4_n2t1", fetch=5, bounds="n=2,t=1ns; 4 symbolic ops then drain; times<=4", tier="thorough"),
+        H(M01, "c01_script5_n2t2", fetch=4, bounds="n=2,t=2ns; 5 symbolic ops then drain; times<=5", tier="thorough"),
     ],
 )
 
@@ -80,14 +101,14 @@ PROPS["C03"] = dict(
     assumptions=PROPS["C01"]["assumptions"],
     outside=PROPS["C01"]["outside"] + ["net layer buf_process flush order (read only)"],
     harnesses=[
-        H(M01, "c03_ties2_n1t1", bounds="n=1,t=1ns; add,add,drain; times<=3"),
-        H(M01, "c03_ties2_n2t2", bounds="n=2,t=2ns; add,add,drain; times<=5"),
-        H(M01, "c03_ties3_n1t2", bounds="n=1,t=2ns; add,add,fetch,add,drain; times<=5"),
-        H(M01, "c03_ties3_n2t1", bounds="n=2,t=1ns; add,add,fetch,add,drain; times<=4"),
-        H(M01, "c03_ties3_n3t1", bounds="n=3,t=1ns; add,add,fetch,add,drain; times<=4", tier="thorough"),
-        H(M01, "c03_adds3_n1t1", bounds="n=1,t=1ns; add,add,add,drain; times<=3"),
-        H(M01, "c03_adds3_n2t2", bounds="n=2,t=2ns; add,add,add,drain; times<=5"),
-        H(M01, "c03_script4_n2t1", bounds="n=2,t=1ns; 4 symbolic ops then drain; times<=4", tier="thorough"),
+        H(M01, "c03_ties2_n1t1", fetch=4, bounds="n=1,t=1ns; add,add,drain; times<=3"),
+        H(M01, "c03_ties2_n2t2", fetch=4, bounds="n=2,t=2ns; add,add,drain; times<=5"),
+        H(M01, "c03_ties3_n1t2", fetch=4, bounds="n=1,t=2ns; add,add,fetch,add,drain; times<=5"),
+        H(M01, "c03_ties3_n2t1", fetch=5, bounds="n=2,t=1ns; add,add,fetch,add,drain; times<=4"),
+        H(M01, "c03_ties3_n3t1", fetch=5, bounds="n=3,t=1ns; add,add,fetch,add,drain; times<=4", tier="thorough"),
+        H(M01, "c03_adds3_n1t1", fetch=4, bounds="n=1,t=1ns; add,add,add,drain; times<=3"),
+        H(M01, "c03_adds3_n2t2", fetch=4, bounds="n=2,t=2ns; add,add,add,drain; times<=5"),
+        H(M01, "c03_script4_n2t1", fetch=5, bounds="n=2,t=1ns; 4 symbolic ops then drain; times<=4", tier="thorough"),
     ],
 )
 
@@ -111,14 +132,16 @@ PROPS["C02"] = dict(
     assumptions=RT_STUBS + ["timestamps < 1 s", "<= 2 events per run, handler schedules <= 1 follow-up"],
     outside=["BinaryHeap back end", "more than 2 events per harness", "handlers scheduling more than one follow-up", "start banner / profiler output"],
     harnesses=[
-        H(MRT, "c02_clock_n1t2", bounds="n=1,t=2ns; event at t1<=3 spawning follow-up at delay d<=2 (0 allowed); 3 dispatch_event calls"),
-        H(MRT, "c02_clock_n2t1", bounds="n=2,t=1ns; t1<=3, d<=2; 3 dispatch_event calls", tier="thorough"),
-        H(MRT, "c02_two_n1t2", bounds="n=1,t=2ns; two pre-scheduled events at symbolic times<=3; dispatch_all"),
-        H(MRT, "c02_two_n2t2", bounds="n=2,t=2ns; two pre-scheduled events, times<=5; dispatch_all", tier="thorough"),
+        H(MRT, "c02_clock_roundtrip_fullwidth", bounds="SimTime::set_now / now round trip, full-width u64 seconds x u32 nanos (no bound)"),
+        H(MRT, "c02_dispatch_fullwidth", fetch=2, bounds="n=1, bucket width 2^63 s; one event at a full-width symbolic time < 2^63 s; one dispatch"),
+        H(MRT, "c02_clock_n1t2", fetch=4, bounds="n=1,t=2ns; event at t1<=3 spawning follow-up at delay d<=2 (0 allowed); 3 dispatch_event calls"),
+        H(MRT, "c02_clock_n2t1", fetch=7, bounds="n=2,t=1ns; t1<=3, d<=2; 3 dispatch_event calls", tier="thorough"),
+        H(MRT, "c02_two_n1t2", fetch=3, unwindset=[DISPATCH(4)], bounds="n=1,t=2ns; two pre-scheduled events at symbolic times<=3; dispatch_all"),
+        H(MRT, "c02_two_n2t2", fetch=4, unwindset=[DISPATCH(4)], mem=16, bounds="n=2,t=2ns; two pre-scheduled events, times<=5; dispatch_all", tier="thorough"),
         H(MRT, "c02_past_start_time", bounds="real Builder::start_time(s).build(), s<=4, add_event(t<s) must panic",
           expect_fail=["Cannot add past event to calender queue"], must_fail=["Cannot add past event to calender queue"]),
-        H(MRT, "c02_future_start_time", bounds="real Builder::start_time(s).build(), s<=4, add_event(s<=t<=6) accepted, start(), dispatched at t"),
-        H(MRT, "c02_past_after_dispatch", bounds="n=1,t=2ns; dispatch event at a in 1..=4, then add_event(t<a) must panic",
+        H(MRT, "c02_future_start_time", fetch=4, bounds="real Builder::start_time(s).build(), s<=4, add_event(s<=t<=6) accepted, start(), dispatched at t"),
+        H(MRT, "c02_past_after_dispatch", fetch=4, bounds="n=1,t=2ns; dispatch event at a in 1..=4, then add_event(t<a) must panic",
           expect_fail=["Cannot add past event to calender queue"], must_fail=["Cannot add past event to calender queue"]),
     ],
 )
@@ -129,12 +152,14 @@ PROPS["C10"] = dict(
     assumptions=RT_STUBS + ["timestamps < 1 s", "3 events per run, cut after k in {1,2}"],
     outside=["BinaryHeap back end", "more than 3 events, several cuts per run", "handlers that schedule follow-ups across a cut"],
     harnesses=[
-        H(MRT, "c10_cut_same_instant_n1t2", bounds="n=1,t=2ns; three events at one symbolic instant a<=3; dispatch_n_events(k in 1..=2) then dispatch_all"),
-        H(MRT, "c10_cut_n1t2", bounds="n=1,t=2ns; three events at symbolic times<=3 (ties allowed); dispatch_n_events(k in 1..=2) then dispatch_all"),
-        H(MRT, "c10_cut_n2t1", bounds="n=2,t=1ns; three events, times<=3; cut k in 1..=2", tier="thorough"),
-        H(MRT, "c10_paused_add_n1t2", bounds="n=1,t=2ns; events a<=b<=3; dispatch_n_events(1); add_event(x in a..=4); dispatch_all"),
-        H(MRT, "c10_until_n1t2", bounds="n=1,t=2ns; two events times<=3; dispatch_events_until(T'<=3) then dispatch_all"),
-        H(MRT, "c10_until_n2t1", bounds="n=2,t=1ns; two events times<=3; dispatch_events_until(T'<=3)", tier="thorough"),
+        H(MRT, "c10_cut1_same_instant_n1t2", fetch=3, unwindset=[DISPATCH(3)], mem=16, bounds="n=1,t=2ns; three events at one symbolic instant a<=3; dispatch_n_events(1) then 3 dispatch_event calls; dispatch_all loop unwound 3"),
+        H(MRT, "c10_cut2_same_instant_n1t2", fetch=3, unwindset=[DISPATCH(4)], mem=16, bounds="same, dispatch_n_events(2); dispatch_all loop unwound 4", tier="thorough"),
+        H(MRT, "c10_cut1_n1t2", fetch=3, unwindset=[DISPATCH(3)], mem=16, bounds="n=1,t=2ns; three events at symbolic times a<=b<=c<=3 (ties allowed); dispatch_n_events(1) then dispatch_event calls"),
+        H(MRT, "c10_cut2_n1t2", fetch=3, unwindset=[DISPATCH(4)], mem=16, bounds="same, dispatch_n_events(2)", tier="thorough"),
+        H(MRT, "c10_cut1_n2t1", fetch=5, unwindset=[DISPATCH(3)], mem=20, bounds="n=2,t=1ns; three events a<=b<=c<=3; dispatch_n_events(1)", tier="thorough"),
+        H(MRT, "c10_paused_add_n1t2", fetch=3, unwindset=[DISPATCH(4)], mem=14, bounds="n=1,t=2ns; events a<=b<=3; dispatch_n_events(1); add_event(x in a..=4); dispatch_all"),
+        H(MRT, "c10_until_n1t2", fetch=3, unwindset=[DISPATCH(4)], mem=16, bounds="n=1,t=2ns; two events times<=3; dispatch_events_until(T'<=3) then dispatch_all"),
+        H(MRT, "c10_until_n2t1", fetch=5, unwindset=[DISPATCH(4)], mem=20, bounds="n=2,t=1ns; two events times<=3; dispatch_events_until(T'<=3)", tier="thorough"),
     ],
 )
 
@@ -149,14 +174,75 @@ PROPS["C11"] = dict(
         H("runtime::limit::verif_c11", "c11_applies_depth2", bounds="And/Or of two symbolic leaves, full-width values"),
         H("runtime::limit::verif_c11", "c11_applies_depth3", bounds="symbolic shape: (a op b) op c / c op (a op b), ops symbolic, full-width values"),
         H("runtime::limit::verif_c11", "c11_add_composes_or", bounds="None.add(a).add(b).add(c), full-width values"),
-        H(MRT, "c11_run2_none_n1t2", bounds="n=1,t=2ns; two events times<=3; limit None; dispatch_all + finish"),
-        H(MRT, "c11_run2_count_n1t2", bounds="n=1,t=2ns; two events times<=3; EventCount(n<=3 symbolic)"),
-        H(MRT, "c11_run2_time_n1t2", bounds="n=1,t=2ns; two events times<=3; SimTime(T<=4 symbolic)"),
-        H(MRT, "c11_run2_and_n1t2", bounds="n=1,t=2ns; two events; And(EventCount(n<=3), SimTime(T<=4))"),
-        H(MRT, "c11_run2_or_n1t2", bounds="n=1,t=2ns; two events; Or(EventCount(n<=3), SimTime(T<=4))"),
-        H(MRT, "c11_run2_builder_or_n1t2", bounds="n=1,t=2ns; two events; None.add(SimTime).add(EventCount) as Builder::max_time().max_itr() composes"),
-        H(MRT, "c11_run2_count_n2t1", bounds="n=2,t=1ns; two events times<=3; EventCount(n<=3)", tier="thorough"),
-        H(MRT, "c11_run2_time_n2t1", bounds="n=2,t=1ns; two events times<=3; SimTime(T<=4)", tier="thorough"),
-        H(MRT, "c11_run2_or_n2t1", bounds="n=2,t=1ns; two events; Or(EventCount, SimTime)", tier="thorough"),
+        H(MRT, "c11_run2_none_n1t2", fetch=3, unwindset=[DISPATCH(4), FINISH(4)], mem=16, bounds="n=1,t=2ns; two events times<=3; limit None; dispatch_all + finish"),
+        H(MRT, "c11_run2_count_n1t2", fetch=3, unwindset=[DISPATCH(4), FINISH(4)], mem=16, bounds="n=1,t=2ns; two events times<=3; EventCount(n<=3 symbolic)"),
+        H(MRT, "c11_run2_time_n1t2", fetch=3, unwindset=[DISPATCH(4), FINISH(4)], mem=16, bounds="n=1,t=2ns; two events times<=3; SimTime(T<=4 symbolic)"),
+        H(MRT, "c11_run2_and_n1t2", fetch=3, unwindset=[DISPATCH(4), FINISH(4)], mem=16, bounds="n=1,t=2ns; two events; And(EventCount(n<=3), SimTime(T<=4))"),
+        H(MRT, "c11_run2_or_n1t2", fetch=3, unwindset=[DISPATCH(4), FINISH(4)], mem=16, bounds="n=1,t=2ns; two events; Or(EventCount(n<=3), SimTime(T<=4))"),
+        H(MRT, "c11_run2_builder_or_n1t2", fetch=3, unwindset=[DISPATCH(4), FINISH(4)], mem=16, bounds="n=1,t=2ns; two events; None.add(SimTime).add(EventCount) as Builder::max_time().max_itr() composes"),
+        H(MRT, "c11_run2_count_n2t1", fetch=5, unwindset=[DISPATCH(4), FINISH(4)], mem=16, bounds="n=2,t=1ns; two events times<=3; EventCount(n<=3)", tier="thorough"),
+        H(MRT, "c11_run2_time_n2t1", fetch=5, unwindset=[DISPATCH(4), FINISH(4)], mem=16, bounds="n=2,t=1ns; two events times<=3; SimTime(T<=4)", tier="thorough"),
+        H(MRT, "c11_run2_or_n2t1", fetch=5, unwindset=[DISPATCH(4), FINISH(4)], mem=16, bounds="n=2,t=1ns; two events; Or(EventCount, SimTime)", tier="thorough"),
+    ],
+)
+
+
+# --------------------------------------------------------------------------- C16 message bodies
+M16 = "net::message::body::verif_c16"
+PROPS["C16"] = dict(
+    crate="des",
+    mounts=[dict(file="des/src/net/message/body.rs", decl="mod verif_c16", harness="c16.rs")],
+    prepend=[dict(file="des/src/lib.rs", text="#![cfg_attr(kani, feature(allocator_api))]")],
+    functions=["des::net::message::Body::{new,new_non_clonable,is,try_cast,try_content,try_content_mut,try_clone,clone,drop,length}",
+               "vtable::<T>/vtable_non_clonable::<T> and vtype_id/vclone/vdrop", "des::net::message::Message::{from_raw_parts,length,can_cast,try_cast,try_content,clone}",
+               "MessageBody impls for primitives, (), Option, Result, [T;N], tuples, Vec, String, Box", "Header::byte_len"],
+    level_text="Bounded model checking of the real Body/Message code with symbolic payload values: a body can be read, borrowed or cast only as its creation type (layout-compatible distinct type, the field type, ZSTs and a non-clonable type are all refused and leave the body intact), the value read equals the value put in, every stored value is dropped exactly once under every script of <=4 operations over {clone, try_clone, failed cast, successful cast, drop} on <=3 bodies (drop counters + CBMC's double-free/use-after-free checks on the real drop glue), and Message::length == 64 + declared body length for the listed body types. Derived (proc-macro) bodies and hash-based collections are outside.",
+    claim="No stubs. Drop counting through static counters in the payload type; CBMC memory checks cover the type-erased Box round trips.",
+    assumptions=["payload types A(u32), B(u32) (same layout), Zst, NC(u32) non-clonable; one instantiation each", "script length <= 4, <= 3 bodies alive"],
+    outside=["derive(MessageBody) generated impls (proc-macro expands to ::des paths, not usable inside the crate)", "HashMap/HashSet/BTreeMap bodies (hashbrown outside the encoding)", "scripts longer than 4 operations", "channel charging (C07 uses Message::length)"],
+    harnesses=[
+        H(M16, "c16_wrong_type_cast_is_refused", bounds="symbolic u32 payload; casts to B(u32), u32 refused; cast to A ok; drop counters"),
+        H(M16, "c16_zst_and_non_clonable", bounds="ZST body; non-clonable body with symbolic payload"),
+        H(M16, "c16_script_drop_once", bounds="symbolic script of 4 ops over {clone,try_clone,failed cast,successful cast,drop} on 3 slots"),
+        H(M16, "c16_message_length", bounds="u64,u8,(),Option<u32>,Result<u16,u64>,[u16;3],(u8,u32,u64), no body; symbolic values"),
+        H(M16, "c16_message_length_collections", bounds="Vec<u32> len<=3, String len<=4, Box<u16>"),
+        H(M16, "c16_message_cast", bounds="Message::{can_cast,try_content,try_cast,clone} with symbolic payload"),
+    ],
+)
+
+
+# --------------------------------------------------------------------------- C15
+M15 = "stable::alloc::verif_c15"
+M15P = "stable::verif_c15p"
+PROPS["C15"] = dict(
+    crate="des-cqueue",
+    mounts=CQ_MOUNTS + [dict(file="des-cqueue/src/stable/alloc.rs", decl="mod verif_c15", harness="c15.rs"),
+                        dict(file="des-cqueue/src/stable/mod.rs", decl="mod verif_c15p", harness="c15_payload.rs")],
+    prepend=CQ_PREPEND,
+    functions=["CQueueLLAllocatorInner::{new,with_page_size,add_page,add_free_region,find_region,alloc_from_region,size_align,handle}",
+               "CQueueLLAllocator::{allocate,deallocate}", "align_up", "ListNode::{start_addr,end_addr}",
+               "CQueue::{add,cancel,fetch_next,drop}", "DualLinkedList::{add,cancel,pop_min,drop}", "LocalBox::{new_in,from_raw_in,drop}", "EventNode::into_inner"],
+    level_text="Bounded model checking. (a) The integer kernels align_up / size_align / alloc_from_region satisfy their contracts for full-width or page-sized symbolic arguments. (b) The REAL page allocator (no stub, page size 128): for every script alloc(l0), alloc(l1), free(symbolic one), alloc(l2) with symbolic sizes 1..64 and alignments 1..16, every block is aligned, lies inside an owned page, is disjoint from every live block, allocated_mem equals the sum of live padded sizes, and a live block's bytes survive free/alloc of others; CBMC's pointer checks cover the free-list writes. (c) Payloads with a destructor (24 B align 8; 16 B align 16; u8) moved through the real queue are returned bit-for-bit and dropped exactly once on fetch / cancel / drop of the queue with events pending (real Drop for CQueue, DualLinkedList, LocalBox).",
+    claim="Allocator harnesses use no allocator stub; payload harnesses stub the allocator to std::alloc so that CBMC's malloc model detects double free / use after free of nodes.",
+    assumptions=["page_size::get -> 128 (FFI sysconf); real page size not explored", "allocator script length 3 allocations + 1 free; find_region recursion / free-list walk unwound 4 (unwinding assertions on)",
+                 "payload harnesses: CQ stubs as in C01 (overlay constructor cap 4, allocator -> std::alloc, VecDeque::grow -> bound assertion, VecDeque::remove -> swaps)", "2 payloads per queue, timestamps <= 3 ns"],
+    outside=["payloads of ~2 KiB, multi-page recycling over long histories", "real page_size", "more than 3 allocations", "allocation failure of the system allocator (Kani models malloc as infallible)"],
+    harnesses=[
+        H(M15, "c15_align_up_contract", bounds="addr full-width, align = 2^k k<=12"),
+        H(M15, "c15_size_align_contract", bounds="size<=4096, align=2^k k<=6"),
+        H(M15, "c15_alloc_from_region_contract", bounds="region offset<=128 (8-aligned), region size 16..128, request size 16..128 multiple of align, align 8..32"),
+        H(M15, "c15_alloc2_align8", mem=12, bounds="REAL allocator, page 128; alloc(l0),alloc(l1); sizes 1..64 symbolic, align 8"),
+        H(M15, "c15_alloc2_align1_16", mem=12, bounds="REAL allocator, page 128; alloc(size 1..64, align 1), alloc(size 1..64, align 16)"),
+        H(M15, "c15_alloc_free_alloc_align8", mem=12, bounds="REAL allocator, page 128; alloc(l0),free,alloc(l1); sizes 1..64 symbolic, align 8"),
+        H(M15, "c15_alloc_reuse_keeps_live_block", mem=16, bounds="REAL allocator, page 128; alloc(24),alloc(l1),free(first),alloc(l2); sizes 1..64 symbolic, align 8"),
+        H(M15, "c15_alloc_script3", bounds="REAL allocator, page 128; alloc,alloc,free(sym),alloc; sizes 1..64, align 1..16 symbolic", tier="thorough", timeout=5400, mem=24),
+        H(M15, "c15_alloc_page_limits", bounds="REAL allocator, page 128; one request of size 1..200, align 8"),
+        H(M15P, "c15_payload_pending_n1t2", fetch=3, bounds="n=1,t=2ns; two D payloads at symbolic times<=3; queue dropped with both pending"),
+        H(M15P, "c15_payload_fetch_n1t2", fetch=3, bounds="n=1,t=2ns; two payloads; fetch one, drop queue"),
+        H(M15P, "c15_payload_cancel_n1t2", fetch=3, bounds="n=1,t=2ns; two payloads; cancel one (symbolic), drop queue"),
+        H(M15P, "c15_payload_pending_n2t2", fetch=3, bounds="n=2,t=2ns; both pending at drop", tier="thorough"),
+        H(M15P, "c15_payload_fetch_n2t2", fetch=3, bounds="n=2,t=2ns; fetch one, drop queue", tier="thorough"),
+        H(M15P, "c15_payload_cancel_n2t2", fetch=3, bounds="n=2,t=2ns; cancel one, drop queue", tier="thorough"),
+        H(M15P, "c15_payload_types_roundtrip", fetch=3, bounds="A16 (align 16) and u8 payload, one event, symbolic time<=3"),
     ],
 )
